@@ -85,6 +85,28 @@ def run_replay(path, timeout=600):
     return None, out
 
 
+_LADDER_CACHE = {}
+
+
+def run_ladder(check_id, kind, job, timeout=240):
+    key = (check_id, kind, json.dumps(job, sort_keys=True))
+    if key in _LADDER_CACHE:
+        return _LADDER_CACHE[key]
+    env = dict(os.environ)
+    env.pop("PYTHONPATH", None)
+    hit = None
+    try:
+        p = subprocess.run([PY if os.path.exists(PY) else sys.executable, os.path.join(VERIF, "vf", "ladder.py"), check_id, kind,
+                            json.dumps(job)], capture_output=True, text=True, timeout=timeout, env=env, cwd=VERIF)
+        last = [l for l in p.stdout.splitlines() if l.startswith("{")]
+        if last:
+            hit = unjson(json.loads(last[-1])).get("hit")
+    except subprocess.TimeoutExpired:
+        hit = None
+    _LADDER_CACHE[key] = hit
+    return hit
+
+
 # --------------------------------------------------------------------------
 # path discharge (worker side)
 # --------------------------------------------------------------------------
@@ -214,6 +236,22 @@ def discharge(check_id, job, pr, out, replay_kind, describe=None, timeout_ms=400
                 verdict = "unreproduced"
                 break
             blocked.append(z3.Or(*lits))
+        if verdict == "unreproduced" and not meta.get("no_ladder"):
+            # solver said sat on an abstraction, the model does not replay: walk the concretisation ladder
+            rk = meta.get("replay", replay_kind)
+            hit = run_ladder(check_id, rk, job)
+            if hit is not None:
+                inputs = dict(hit)
+                inputs["_obligation"] = name
+                path = write_replay(check_id, rk, inputs, note="obligation: %s (solver sat on the abstraction; concretised by the ladder)" % name)
+                ok, detail = run_replay(path)
+                if ok:
+                    viol = {"obligation": name, "replay": path, "inputs": jsonable({k: v for k, v in hit.items() if not k.startswith("_")}),
+                            "detail": detail[-2000:], "kind": rk, "job": job, "via": "ladder"}
+                    if meta.get("key"):
+                        viol["key"] = meta["key"]
+                    out.d["violations"].append(viol)
+                    verdict = "violated"
         if verdict in ("unknown", "unreproduced") and meta.get("fallback") is not None:
             # the goal was a sufficient (stronger, cheaper) form: decide the property-level form instead
             m2 = dict(meta)
